@@ -49,21 +49,22 @@ def gen_ir(rng, stable):
 
 def run_chain(arg):
     ir, chain = arg
-    states, cur = [], ir
+    states, docs, cur = [], [], ir
     hop_items = []
     for f in chain:
         try:
             nxt, _src = T.hop(f, cur, {})
         except Exception as e:  # noqa
-            return {"raised": [f, type(e).__name__, str(e)[:100]], "states": states, "hop_items": hop_items}
+            return {"raised": [f, type(e).__name__, str(e)[:100]], "states": states, "docs": docs, "hop_items": hop_items}
         hop_items.append((f, T.compare(cur, nxt, norm=None, edd=(f == "docstring"))))
         states.append({k: state_of(v) for k, v in nxt["params"].items()})
+        docs.append({k: T.norm_doc(v.get("doc")) for k, v in nxt["params"].items()})
         cur = nxt
-    return {"states": states, "end": T.core(cur), "start": T.core(ir), "names_end": list(cur["params"]), "hop_items": hop_items}
+    return {"docs": docs, "states": states, "end": T.core(cur), "start": T.core(ir), "names_end": list(cur["params"]), "hop_items": hop_items}
 
 
 def worker(batch):
-    out = {"n": 0, "chains": 0, "items": [], "corr": [], "stable_chains": 0}
+    out = {"n": 0, "chains": 0, "items": [], "corr": [], "stable_chains": 0, "outside_model": 0, "compared": 0}
     for ir, stable, chains in batch:
         out["n"] += 1
         results = [guarded(run_chain, (ir, ch), 60) for ch in chains]
@@ -95,8 +96,17 @@ def worker(batch):
                 out["items"].append(("C03/raises/%s/%s" % (r["raised"][0], r["raised"][1]), {"chain": ch, "detail": r["raised"]}, ir))
                 continue
             # correspondence hop by hop
+            # Model/Norm.v speaks about (type, default) of a parameter whose description is the plain one it started with; once a
+            # hop has rewritten the description (e.g. left a "Defaults to" remark behind) later hops are outside the model
+            rewritten = set()
             for hi, states in enumerate(r["states"]):
                 for name in ir["params"]:
+                    if r["docs"][hi].get(name) != T.norm_doc(ir["params"][name].get("doc")):
+                        rewritten.add(name)
+                    if name in rewritten:
+                        out["outside_model"] += 1
+                        continue
+                    out["compared"] += 1
                     m = by[(ci, name)][hi]
                     got = states.get(name)
                     if m is not None and got != m:
@@ -120,7 +130,7 @@ def collect(ctx, n_ir, n3):
         if not ctx.quick:
             chains += [[rng.choice(FORMATS) for _ in range(rng.randint(4, 5))] for _ in range(6)]
         work.append((ir, stable, chains))
-    agg = {"n": 0, "chains": 0, "stable_chains": 0}
+    agg = {"n": 0, "chains": 0, "stable_chains": 0, "outside_model": 0, "compared": 0}
     items, corr = [], []
     for r in run_cases(worker, [[w] for w in work], chunk=1):
         if "harness_error" in r:
@@ -158,6 +168,8 @@ def run(ctx):
                 "docstring-rest}; every hop emits, renders to text, re-reads and parses" % ("a sample of 40" if ctx.quick else "all 125"),
         "interfaces": agg["n"], "chains": agg["chains"], "chains_on_stable_domain": agg["stable_chains"],
         "model_disagreements": len(corr), "traces_validated_against_impl": agg["chains"],
+        "parameter_states_compared_with_model": agg["compared"],
+        "parameter_states_outside_model_description_rewritten": agg["outside_model"],
         "samples": [T.jsonable(work[0][0]), work[0][2][7]],
         "build": {k: status[k] for k in ("build_s", "forbidden")},
     }
